@@ -497,6 +497,8 @@ func newAPI() *serix.API {
 	must(a.RegisterTypeSettings(JMaps{}, ts.WithObjectType(uint8(0x21))))
 	must(a.RegisterTypeSettings(Custom{}, ts.WithObjectType(uint8(0x33))))
 	must(a.RegisterTypeSettings(Root{}, ts.WithObjectType(uint8(0x7F))))
+	must(a.RegisterTypeSettings(Chips{}, ts.WithLengthPrefixType(serix.LengthPrefixTypeAsByte)))
+	must(a.RegisterTypeSettings(CellMap{}, ts.WithLengthPrefixType(serix.LengthPrefixTypeAsByte)))
 	return a
 }
 
@@ -909,3 +911,47 @@ func hasOutOfRangeTime(v reflect.Value) bool {
 	}
 	return false
 }
+
+// ---------------------------------------------------------------------------------------------
+// Self-serialising types without a type code that hand out memory they keep using: Chip writes into one scratch buffer
+// shared by all Chips and returns it; Cell is a window into a frame that several Cells share, and the slice it returns
+// has the rest of the frame as spare capacity. Whoever calls Encode() on them has to be done with (or have copied)
+// the bytes before it calls the next Encode() or appends to them.
+
+var chipScratch = make([]byte, 0, 8)
+
+type Chip struct{ A, B byte }
+
+func (c Chip) Encode() ([]byte, error) {
+	chipScratch = append(chipScratch[:0], 0xC1, c.A, c.B)
+	return chipScratch, nil
+}
+
+func (c *Chip) Decode(b []byte) (int, error) {
+	if len(b) < 3 || b[0] != 0xC1 {
+		return 0, fmt.Errorf("chip: short or bad magic")
+	}
+	c.A, c.B = b[1], b[2]
+	return 3, nil
+}
+
+type Chips []Chip // lenPrefix uint8
+
+type Cell struct {
+	Frame *[12]byte
+	Off   int // 0, 3, 6, 9
+}
+
+func (c Cell) Encode() ([]byte, error) { return c.Frame[c.Off : c.Off+3], nil }
+
+func (c *Cell) Decode(b []byte) (int, error) {
+	if len(b) < 3 {
+		return 0, fmt.Errorf("cell: short")
+	}
+	c.Frame = new([12]byte)
+	copy(c.Frame[:], b[:3])
+	c.Off = 0
+	return 3, nil
+}
+
+type CellMap map[Cell]uint16 // lenPrefix uint8
